@@ -57,7 +57,8 @@ WithDefaults(ns, e) == DefineAll(DefineAll(ns, DefsL(e), OpenL(<<>>)), Defs(e) \
 RuleOk(p, val) == [k |-> "ok", p |-> p, val |-> val]
 
 \* ---------------------------------------------------------------- semantic actions (C06): a finite family
-FlatHasB(v) == v.t = "s" /\ v.v = <<"b">>
+FlatHasB(v) == \/ (v.t = "s" /\ v.v = <<"b">>)
+               \/ (v.t = "d" /\ \E i \in 1..Len(v.v) : v.v[i][2].t = "s" /\ v.v[i][2].v = <<"b">>)
 Act(name, val) ==
   CASE Cfg.act \in {"none", "id"} -> [k |-> "ok", v |-> val]
     [] Cfg.act = "tag"   -> [k |-> "ok", v |-> IF name = Cfg.actrule \/ Cfg.actrule = "*" THEN Tagged(name, val) ELSE val]
